@@ -4,7 +4,7 @@ use crate::common::*;
 
 pub fn run(ctx: &Ctx) -> Outcome {
     let mut out = Outcome::default();
-    let d = ctx.tier.pick(8, 11);
+    let d = ctx.tier.pick(9, 11);
     run_and_report(ctx, &rx(ctx.tier, 2, vec![MSS], d), &mut out);
     run_and_report(ctx, &rx(ctx.tier, 4, vec![MSS, 1], d), &mut out);
     if ctx.tier == Tier::Thorough {
@@ -12,8 +12,8 @@ pub fn run(ctx: &Ctx) -> Outcome {
     }
     run_and_report(ctx, &rx_rude(ctx.tier, d), &mut out);
     run_and_report(ctx, &rx_halfclosed(ctx.tier, d), &mut out);
-    run_and_report(ctx, &rx_reader_gone(ctx.tier, ctx.tier.pick(7, 9)), &mut out);
-    run_and_report(ctx, &rx_probe_then_fin(ctx.tier, ctx.tier.pick(6, 8)), &mut out);
+    run_and_report(ctx, &rx_reader_gone(ctx.tier, ctx.tier.pick(8, 9)), &mut out);
+    run_and_report(ctx, &rx_probe_then_fin(ctx.tier, ctx.tier.pick(7, 8)), &mut out);
     // ... and with the reader on another thread than the connection: two reads in a row while the
     // connection has not flushed what it still holds
     {
@@ -21,9 +21,9 @@ pub fn run(ctx: &Ctx) -> Outcome {
         let tc = ThreadsCfg { base_depth: ctx.tier.pick(2, 3), preemption_bound: ctx.tier.pick(Some(2), Some(3)), max_runs_per_case: ctx.tier.pick(3_000, 100_000), with_suffix: false, triples: false, doubles: true, budget_share: 0.5 };
         explore_threads(ctx, &rx_probe_then_fin(ctx.tier, 0), &tc, &mut out);
     }
-    run_and_report(ctx, &rx_after_fin(ctx.tier, false, ctx.tier.pick(5, 7)), &mut out);
-    run_and_report(ctx, &rx_after_fin(ctx.tier, true, ctx.tier.pick(5, 7)), &mut out);
-    for drv in fsm_all(ctx.tier, ctx.tier.pick(5, 7)).into_iter().filter(|d| d.name.contains("finwait") || d.name.contains("inflight")) {
+    run_and_report(ctx, &rx_after_fin(ctx.tier, false, ctx.tier.pick(6, 7)), &mut out);
+    run_and_report(ctx, &rx_after_fin(ctx.tier, true, ctx.tier.pick(6, 7)), &mut out);
+    for drv in fsm_all(ctx.tier, ctx.tier.pick(6, 7)).into_iter().filter(|d| d.name.contains("finwait") || d.name.contains("inflight")) {
         run_and_report(ctx, &drv, &mut out);
     }
     out.rule = "C04: explicit-state BFS over arrival orders x payload sizes x reader behaviour on one real connection; states = distinct fingerprints (full connection dump + harness + monitor state)".into();
